@@ -99,10 +99,20 @@ block `[[G[col,col], G[col,row]], [G[row,col], G[row,row]]]`. -/
 noncomputable def stageAt (G : Mat (2 ^ n)) (row col : Fin (2 ^ n)) : Option Stage :=
   (qrRotation n row.val col.val).map (fun L => (L, ⟨G col col, G col row, G row col, G row row⟩))
 
-/-- the stage the code builds for `G`: locate with `_get_row_col`, then `stageAt`; `none` where the
-code raises. -/
+/-- the stage the code builds for `G` (as repaired): locate with `_get_row_col` (`none` =
+`ValueError`), then `stageAt`. -/
 noncomputable def codeStage (G : Mat (2 ^ n)) : Option Stage :=
-  (getRowCol G).bind (fun p => stageAt G p.1 p.2)
+  (getRowCol G).bind (fun p =>
+    if h : p.1 < 2 ^ n ∧ p.2 < 2 ^ n then stageAt G ⟨p.1, h.1⟩ ⟨p.2, h.2⟩ else none)
+
+/-- the stage the code built BEFORE the repair: `none` where `_get_row_col` raised. -/
+noncomputable def codeStageOld (G : Mat (2 ^ n)) : Option Stage :=
+  (getRowColOld G).bind (fun p => stageAt G p.1 p.2)
+
+theorem codeStage_of_loc (G : Mat (2 ^ n)) {row col : Fin (2 ^ n)}
+    (h : getRowCol G = some (row.val, col.val)) : codeStage G = stageAt G row col := by
+  unfold codeStage
+  rw [h, Option.bind_some, dif_pos ⟨row.isLt, col.isLt⟩]
 
 /-- the whole circuit: stages in list order. -/
 def circSem (sts : List Stage) (ψ : Bits → ℂ) : Bits → ℂ :=
@@ -145,7 +155,44 @@ theorem factors_stages (ps : List (Fin (2 ^ n) × Fin (2 ^ n))) (hps : ∀ p ∈
     obtain ⟨hg, he⟩ := getRowCol_factor M hp h0 h1
     obtain ⟨st, hst, hden⟩ := stageAt_denotes (givens M p.1 p.2)ᴴ hp
     refine ⟨st :: sts, List.Forall₂.cons ⟨?_, ?_⟩ hsts⟩
-    · simp [codeStage, hg, hst]
-    · intro ψ; rw [hden, he]
+    · rw [codeStage_of_loc _ hg, hst]
+    · intro ψ
+      rw [hden, ← embedAt_fin]
+      have : codeMatrix (givens M p.1 p.2)ᴴ = some (embedAt (givens M p.1 p.2)ᴴ p.1.val p.2.val) := by
+        rw [codeMatrix, hg]; rfl
+      rw [he] at this
+      rw [← Option.some.inj this]
+
+theorem factors_codeMatrix {N : ℕ} (ps : List (Fin N × Fin N)) (hps : ∀ p ∈ ps, p.1 < p.2)
+    (M : Mat N) (hloc : SweepLoc ps M) :
+    (factors ps M).map codeMatrix = (factors ps M).map some := by
+  induction ps generalizing M with
+  | nil => rfl
+  | cons p ps ih =>
+    obtain ⟨⟨h0, h1⟩, h2⟩ := hloc
+    simp only [factors, List.map_cons]
+    rw [(getRowCol_factor M (hps p List.mem_cons_self) h0 h1).2,
+      ih (fun q hq => hps q (List.mem_cons_of_mem _ hq)) _ h2]
+
+/-- the residual `diag(1, …, 1, z)` gets the stage of the last two levels, which denotes it. -/
+theorem diag_stage (hn : 1 ≤ n) (G : Mat (2 ^ n)) (hid : IdButLast G) :
+    ∃ st, codeStage G = some st ∧ ∀ ψ, ampSem st.2 st.1 ψ = actMat G ψ := by
+  have hN : 2 ≤ 2 ^ n := by
+    calc 2 = 2 ^ 1 := rfl
+      _ ≤ 2 ^ n := Nat.pow_le_pow_right (by omega) hn
+  obtain ⟨hloc, hcm⟩ := codeMatrix_diag hN G hid
+  let row : Fin (2 ^ n) := ⟨2 ^ n - 1, by omega⟩
+  let col : Fin (2 ^ n) := ⟨2 ^ n - 2, by omega⟩
+  have hlt : col < row := by
+    show (2 ^ n - 2 : ℕ) < 2 ^ n - 1
+    omega
+  obtain ⟨st, hst, hden⟩ := stageAt_denotes G hlt
+  refine ⟨st, ?_, ?_⟩
+  · rw [codeStage_of_loc G (row := row) (col := col) hloc, hst]
+  · intro ψ
+    rw [hden, ← embedAt_fin]
+    have : codeMatrix G = some (embedAt G col.val row.val) := by rw [codeMatrix, hloc]; rfl
+    rw [hcm] at this
+    rw [← Option.some.inj this]
 
 end Qclib.QrFull
